@@ -11,14 +11,14 @@ import (
 type Op uint8
 
 const (
-	OpConst  Op = iota // bit-vector constant (W>0) or bool constant (W==0)
-	OpVar              // named variable
-	OpApp              // uninterpreted function application: Name(args...) -> BV W
-	OpNot              // bool
-	OpAnd              // bool n-ary (binary here)
-	OpOr               // bool
-	OpEq               // bool <- (a,b) same sort
-	OpIte              // (c,a,b)
+	OpConst Op = iota // bit-vector constant (W>0) or bool constant (W==0)
+	OpVar             // named variable
+	OpApp             // uninterpreted function application: Name(args...) -> BV W
+	OpNot             // bool
+	OpAnd             // bool n-ary (binary here)
+	OpOr              // bool
+	OpEq              // bool <- (a,b) same sort
+	OpIte             // (c,a,b)
 	OpAdd
 	OpSub
 	OpMul
